@@ -204,7 +204,12 @@ pub fn build(e: &ZooEnv, z: &ZooSpec) -> Result<Option<Zoo>, String> {
             let mut c = if state & 1 == 1 { w.encryptor.encrypt_symmetric_new(&p) } else { w.encryptor.encrypt_new(&p) };
             let wants_more = state & 0b1110 != 0;
             if wants_more && c.contains_seed() { c = c.expand_seed(ctx); }
-            if state & 2 != 0 { let c2 = c.clone(); if let Ok(m) = catch(|| ev.multiply_new(&c, &c2)) { c = m; } }
+            if state & 2 != 0 {
+                // size 3, or (bit 4) a chain of products with the fresh ciphertext: sizes 4, 6, .., 16
+                let c2 = c.clone();
+                let extra = if state & 16 != 0 { 2 + 2 * (state >> 5) as usize } else { 1 };
+                for _ in 0..extra { match catch(|| ev.multiply_new(&c, &c2)) { Ok(m) if m.size() <= 16 => c = m, _ => break } }
+            }
             if state & 4 != 0 && w.levels.len() > 1 { if let Ok(m) = catch(|| ev.mod_switch_to_next_new(&c)) { c = m; } }
             if state & 8 != 0 && scheme != Scheme::CKKS { c = if c.is_ntt_form() { ev.transform_from_ntt_new(&c) } else { ev.transform_to_ntt_new(&c) }; }
             c
